@@ -6,7 +6,7 @@
 //	c28stress EBMID                                                  deterministic EventsBuffer mid-push scenario
 //	c28stress SNAPMID                                                deterministic Flushable.GetSnapshot vs Flush scenario (parent snapshot blocks)
 //
-// components: flushable lazy pool wlru sem buffer.  The real lachesis-base objects are driven by
+// components: flushable lazy pool wlru sem buffer snap.  The real lachesis-base objects are driven by
 // <threads> goroutines; every goroutine executes a list of operations that is a function of the
 // seed only (the interleaving is the scheduler's).  In LIN mode every call is bracketed by two
 // ticks of one atomic logical clock; the resulting invocation/response history is searched for a
@@ -71,6 +71,8 @@ func newComponent(name string, seed int64, threads int) component {
 		return newSem()
 	case "buffer":
 		return newBuffer(seed)
+	case "snap":
+		return newSnap()
 	}
 	fmt.Fprintln(os.Stderr, "unknown component", name)
 	os.Exit(2)
@@ -117,6 +119,8 @@ func oneCase(args []string) {
 		ebMid()
 	case args[0] == "SNAPMID":
 		snapMid()
+	case args[0] == "POOLMID":
+		poolMid()
 	case (args[0] == "LIN" || args[0] == "STRESS") && len(args) >= 5:
 		seed, _ := strconv.ParseInt(args[2], 10, 64)
 		threads, _ := strconv.Atoi(args[3])
@@ -174,7 +178,11 @@ func run(lin bool, comp string, seed int64, threads, nops int) {
 	for _, r := range recs {
 		h = append(h, r...)
 	}
-	report(h, c.Model(), comp == "buffer")
+	extra := ""
+	if b, ok := c.(*bufComp); ok {
+		extra = b.dagToken()
+	}
+	report(h, c.Model(), comp, extra)
 }
 
 func overlapping(h []rec) int {
@@ -207,10 +215,42 @@ func histTokens(h []rec) string {
 	return strings.Join(out, " ")
 }
 
-func report(h []rec, m seqModel, isBuffer bool) {
+func report(h []rec, m seqModel, comp string, extra string) {
 	ok := linearizable(h, m)
 	why := ""
-	if !ok && isBuffer {
+	if !ok && comp == "pool" {
+		// the recorded finding: SyncedPool.Flush / NotFlushedSizeEst visit the stores one critical section after
+		// the other, so writes through the store handles can fall in between.  Diagnose: is the history
+		// linearizable once every PFlush is replaced by independent per-store flushes (same interval) and the
+		// PSize calls that overlap a handle write are dropped?
+		var h2 []rec
+		pseudo := 100
+		for _, r := range h {
+			switch {
+			case r.op[0] == "PFlush":
+				for _, n := range []string{"a", "b", "c", "d", "z"} {
+					h2 = append(h2, rec{pseudo, r.inv, r.ret, []string{"SFlush", n, r.op[1]}, "ok"})
+					pseudo++
+				}
+			case r.op[0] == "PSize":
+				mid := false
+				for _, w := range h {
+					if w.op[0] == "H" && w.t != r.t && w.inv < r.ret && r.inv < w.ret {
+						mid = true
+					}
+				}
+				if !mid {
+					h2 = append(h2, r)
+				}
+			default:
+				h2 = append(h2, r)
+			}
+		}
+		if linearizable(h2, m) {
+			why = " why=pool-multi-store-not-atomic"
+		}
+	}
+	if !ok && comp == "buffer" {
 		// the recorded finding: Total/IsBuffered are served by the inner LRU without the buffer mutex and can
 		// observe the middle of a PushEvent.  Diagnose: does the history become linearizable once the unlocked
 		// reads that overlap a PushEvent/Clear are dropped?
@@ -233,7 +273,7 @@ func report(h []rec, m seqModel, isBuffer bool) {
 			why = " why=eb-unlocked-read-mid-push"
 		}
 	}
-	fmt.Printf("lin=%d ops=%d ovl=%d%s H %s\n", b2i(ok), len(h), overlapping(h), why, histTokens(h))
+	fmt.Printf("lin=%d ops=%d ovl=%d%s%s H %s\n", b2i(ok), len(h), overlapping(h), why, extra, histTokens(h))
 }
 
 func b2i(b bool) int {
